@@ -72,7 +72,8 @@ RULE = ('tree: random content trees of depth <= 4 over all 15 value types (codes
         'mutated by 1-8 random append/insert/extend/+=/set/del (int + slice, indices around both ends) calls, '
         'then find per name, get_nodes, index, in; subclass: the 12 template content items of sr/content.py x datasets '
         'of the parent / another value type x one required attribute, Value Type or name deleted; num_int: ints '
-        'around 10^15, 10^16, 2^53 and random 14-20 digit ints (exact decimal string stored? value returned?); '
+        'around 10^15, 10^16, 2^53 and random 14-20 digit ints (exact decimal string stored? FloatingPointValue '
+        'written? value == the int, constructed and after bytes?), ints of 17-20 characters also inside trees; '
         'falsy: every value type at the values Python / pydicom treat as "nothing" (a single time offset / sample '
         'position of 0, 0.0, -0.0, zeros at each position of longer lists, NUM 0 / 0.0 / -0.0, empty text, midnight, '
         'bare-int frame numbers, absent optional parts) through the full tree path; history: one SCOORD / SCOORD3D item '
@@ -193,7 +194,8 @@ def g_int(rng, allow_big):
         return rng.choice([0, 1, -1, 2**31 - 1, 2**31, -2**31, 2**32, 99999999999999, -9999999999999,
                            10**13, 123456789])
     if m == 8 and allow_big:
-        return rng.choice([10**14 + 1, 123456789012345, 2**53, 2**53 - 1, -(10**14) - 7, 10**15 + 1])
+        return rng.choice([10**14 + 1, 123456789012345, 2**53, 2**53 - 1, -(10**14) - 7, 10**15 + 1,
+                           10**16, -(10**15), 2**60, -(2**62), 10**17 + 1, 2**63 - 1, 12345678901234567890])
     return rng.randint(-10**13, 10**13)
 
 
@@ -771,6 +773,10 @@ def gen_cases(rng, tier):
                     cases.append({'kind': 'malformed', 'tree': tr, 'path': [], 'op': op, 'to': to, 'r': 0})
     for _ in range(n):
         cases += g_falsy(rng)
+    for z in (10**16, -(10**15), 2**60, 10**17 + 1, 2**63 - 1, -12345678901234567890):
+        tr = g_tree(rng, 0, 1, True, False, ['NUM'])       # ints without an exact DS string, through the tree path
+        tr['t'], tr['val'] = 'NUM', {'num': z, 'isf': False, 'unit': g_code(rng), 'qual': None}
+        cases.append({'kind': 'tree', 'tree': tr})
     for mode in POLY_MODES:       # closed contours with collinear / repeated stretches
         for cnt in (6, 7, 9):
             for _ in range(n):
@@ -1290,11 +1296,12 @@ def run_impl(c):
         def f():
             z = c['z']
             it = sr.NumContentItem(_cc(sr, ['1', '99X', 'n', None]), z, _cc(sr, ['mm', 'UCUM', 'mm', None]), relationship_type='CONTAINS')
-            exact = str(it.MeasuredValueSequence[0].NumericValue) == str(z)
-            if not exact:
-                return [False, None]
+            mv = it.MeasuredValueSequence[0]
+            exact = str(mv.NumericValue) == str(z)
             back = sr.NumContentItem.from_dataset(via_bytes(it))
-            return [True, F(it.value) == z and F(back.value) == z]
+            assert ('FloatingPointValue' in back.MeasuredValueSequence[0]) == ('FloatingPointValue' in mv)
+            assert F(it.value) == F(back.value) == F(float(z)), (it.value, back.value)
+            return [exact, 'FloatingPointValue' in mv, F(it.value) == z and F(back.value) == z]
         return catch(f)
     if k == 'subclass':
         import highdicom.sr.content as cm
@@ -1486,9 +1493,12 @@ def q_value(t, v):
     if t == 'IMAGE':
         return f'(VImage {_s(v["cls"])} {_s(v["inst"])} {_ilist(v["frames"])} {_ilist(v["segs"])})'
     if t == 'NUM':
-        q = F(float(v['num'])) if v['isf'] else F(int(v['num']))
+        # an int of more than 16 characters is kept as float(int) in FloatingPointValue as well (num_of_int; the
+        # number any accessor can report is the double nearest to it - float rounding is a premise, not modelled)
+        fl = v['isf'] or len(str(int(v['num']))) > 16
+        q = F(float(v['num'])) if fl else F(int(v['num']))
         qual = 'None' if v['qual'] is None else f'(Some {q_code(v["qual"])})'
-        return f'(VNum {qlit(q)} {"true" if v["isf"] else "false"} {q_code(v["unit"])} {qual})'
+        return f'(VNum {qlit(q)} {"true" if fl else "false"} {q_code(v["unit"])} {qual})'
     if t == 'PNAME':
         return f'(VPname {_s(v["s"])})'
     if t == 'TEXT':
@@ -1605,6 +1615,8 @@ def exp_value(t, v):
         nl = lambda x: None if x is None else ([x] if isinstance(x, int) else list(x))
         return [v['cls'], v['inst'], nl(v['frames']), nl(v['segs'])]
     if t == 'NUM':
+        if not v['isf'] and not -10**15 < int(v['num']) < 10**16:      # no exact DS: must survive as a double
+            return [F(float(int(v['num']))), True, list(v['unit'][:4]), None if v['qual'] is None else list(v['qual'][:4])]
         return [F(v['num']) if v['isf'] else F(int(v['num'])), bool(v['isf']), list(v['unit'][:4]),
                 None if v['qual'] is None else list(v['qual'][:4])]
     if t in ('PNAME', 'TEXT', 'UIDREF'):
@@ -1905,8 +1917,13 @@ def oracle(c, out):
         fits = len(str(z)) <= 16
         if out[0] != fits:
             return f'int {z} ({len(str(z))} characters): exact decimal string stored = {out[0]}'
-        if fits and abs(z) <= 2**53 and out[1] is not True:
-            return f'NumContentItem.value does not return the int {z} it was constructed with'
+        if not fits and out[1] is not True:
+            return (f'int {z} does not fit a DS and is not kept in FloatingPointValue either: the value changes '
+                    f'after any encoding')
+        is_double = int(float(z)) == z            # CPython int -> float is correctly rounded
+        if out[2] is not is_double:
+            return (f'NumContentItem.value (constructed and after bytes) == {z}: {out[2]}; the int is '
+                    f'{"" if is_double else "not "}an exact double')
         return None
     if k == 'subclass':
         parent, asserts = sub_table()[c['sub']]
